@@ -6,7 +6,7 @@ include of a #pragma-once header, the spelling of a nested include, extra links 
 file links, directory links, './', 'x/../' and '//' segments; all combinations with <= 3 (quick) /
 all (thorough) non-canonical sites.  Oracle: the same code base with every alias replaced by the
 canonical path and the links removed: identical setmap, identical per-line attribution of the
-physical files, one tree per physical file, links add nothing, a link to outside is no member.
+physical files, one tree per physical file, links add nothing (also to the root and directory totals of cbi-tree), a link to outside is no member.
 """
 import itertools
 import os
@@ -17,7 +17,7 @@ from ..core.result import Failure, Report
 
 ID = "C15"
 
-A_SPELL = ["src/a.c", "src/a_link.c", "srcl/a.c", "./src/./a.c", "src/../src/a.c"]
+A_SPELL = ["src/a.c", "src/a_link.c", "srcl/a.c", "./src/./a.c", "src/../src/a.c", "lnk/a.c"]   # lnk/a.c: a link in *another* directory, beside a decoy h.h
 I_SPELL = ["inc", "inc/.", "srcl/../inc", "./inc//"]
 B_SECOND = [None, '#include "h.h"', '#include "h_link.h"', '#include "../inc/h.h"']
 G_SPELL = ["sub/g.h", "./sub/g.h", "sub/../sub/g.h", "../srcl/sub/g.h"]
@@ -44,12 +44,15 @@ def build(base, case, canonical):
         "lib/c.c": '#include "../src/sub/g.h"\nint c;\n',
         "inc/h.h": H,
         "src/sub/g.h": "int g;\n",
+        "lnk/h.h": "int decoy;\n#define DECOY\n",      # must never be picked: a.c lives in src/, whatever it was called on the command line
     }
     links = {}
     if not canonical:
         need = set()
         if "a_link" in A_SPELL[a1] or "a_link" in A_SPELL[a2]:
             need.add("L1")
+        if "lnk/" in A_SPELL[a1] or "lnk/" in A_SPELL[a2]:
+            need.add("L5")
         if "srcl" in A_SPELL[a1] + A_SPELL[a2] + I_SPELL[isp] + G_SPELL[gsp]:
             need.add("L3")
         if second and "h_link" in second:
@@ -57,7 +60,7 @@ def build(base, case, canonical):
         if X_LINKS[xl] == "outside-link":
             need.add("L4")
         if X_LINKS[xl] == "all-links-present":
-            need |= {"L1", "L2", "L3", "L4"}
+            need |= {"L1", "L2", "L3", "L4", "L5"}
         if "L1" in need:
             links["src/a_link.c"] = "a.c"
         if "L2" in need:
@@ -66,6 +69,8 @@ def build(base, case, canonical):
             links["srcl"] = "src"
         if "L4" in need:
             links["src/out.c"] = "../../outside/o.c"
+        if "L5" in need:
+            links["lnk/a.c"] = "../src/a.c"
     codebase.write_tree(root, files, links)
     sp1 = A_SPELL[0] if canonical else A_SPELL[a1]
     sp2 = A_SPELL[0] if canonical else A_SPELL[a2]
@@ -98,15 +103,21 @@ def analyse(root, plats):
                 lines[ln] = frozenset(m[node])
         phys[rel] = lines
     trees = sorted(os.path.relpath(k, rr) for k in st.trees)
-    return phys, dict(st.get_setmap(cb)), sorted(os.path.relpath(m, root) for m in members), trees
+    from ..core import cli
+    r = cli.run("tree", ["analysis.toml"], root)
+    legend, nodes = cli.parse_tree(r["out"])
+    nodes = [n for n in cli.tree_paths(nodes) if "raw" not in n]
+    tree_root = (r["rc"], sorted(legend.values()), {k: nodes[0][k] for k in ("platforms", "sloc", "cov", "avg")} if nodes else None,
+                 sorted(("/".join(n["path"]), n["sloc"], n["platforms"]) for n in nodes if n["is_dir"] and n["depth"] == 1 and not os.path.islink(os.path.join(root, *n["path"]))))
+    return phys, dict(st.get_setmap(cb)), sorted(os.path.relpath(m, root) for m in members), trees, tree_root
 
 
 def judge(base, case):
     try:
         root, plats = build(os.path.join(base, "canon"), case, True)
-        catt, csm, cmembers, ctrees = analyse(root, plats)
+        catt, csm, cmembers, ctrees, ctree = analyse(root, plats)
         root, plats = build(os.path.join(base, "alias"), case, False)
-        aatt, asm, amembers, atrees = analyse(root, plats)
+        aatt, asm, amembers, atrees, atree = analyse(root, plats)
     except Exception as e:  # noqa
         return [("exception", "analysis succeeds", f"{type(e).__name__}: {e}")]
     bad = []
@@ -120,6 +131,8 @@ def judge(base, case):
         bad.append(("attribution", "as with canonical paths", d[:8]))
     if len(atrees) != len(set(atrees)) or [t for t in atrees if not t.startswith("..")] != [t for t in ctrees if not t.startswith("..")]:
         bad.append(("trees", ctrees, atrees))
+    if atree != ctree:
+        bad.append(("tree-totals", ctree, atree))
     if any(m.endswith("out.c") for m in amembers):
         bad.append(("outside-link-member", "src/out.c -> outside is not part of the code base", amembers))
     return bad
